@@ -440,7 +440,11 @@ func (e *Engine) unop(st *State, ins *ssa.UnOp) Value {
 				return v
 			}
 		}
-		return e.load(st, p, ins.Type())
+		lv := e.load(st, p, ins.Type())
+		if e.cur != nil && e.cur.discipline != nil {
+			e.cur.discipline.afterLoad(e, st, p, lv)
+		}
+		return lv
 	case token.NOT:
 		return Not(e.term(st, ins.X))
 	case token.SUB:
